@@ -69,6 +69,7 @@ HOSTS = [
     "εμπορικόσήμα.eu", "bücher.de", "127.0.0.1", "1.2.3", "10.0.0.256", "::1", "fe80::1%eth0",
     "2001:DB8::FF00:42:8329", "::ffff:1.2.3.4", "ex%41mple", "a_b", "a~b!$&'()*+,;=", "h-1.x2",
     "日本語.jp", "ß.de", "a..b", "www.example.com.", "0", "0x7f.1",
+    "XN--BCHER-KVA.example", "Xn--jxagkqfkduily1i.EU", "xN--9ca.de", "www.XN--WGV71A119E.jp", "xn--bcher-kva.example", "B\u00dcCHER.example",
 ]
 HOSTS_HOSTILE = [
     "a b", "a@b", "a:b", "a/b", "a?b", "a#b", "a%zzb", "a%2", "[::1]", "[]", "[", "]", "a[b]",
@@ -133,6 +134,7 @@ SPECIAL_URLS = [
     "http://1.2.3.4%25eth0/", "http://[fe80::1%25e%20th0]/", "http://[fe80::1%\u00e9th0]:80/", "http://[::1%25eth0]:443/p", "http://1.2.3.4.:80/",
     "http://h:+80/", "http://h:0x50/", "http://h:1_0/", "http://h:080/p", "http://h:\u0663\u0660/", "http://\u0130stanbul.tr/", "http://\ufb01sh.de:80",
     "http://a\u200db.com/", "http://\u202eevil.com/", "http://\u00c9XAMPLE.\u00c7OM:80/", "http://u\u00e9:p\u00e9@h\u00e9:8080/p\u00e9?q\u00e9#f\u00e9",
+    "http://XN--BCHER-KVA.example/", "HTTP://Xn--9ca.DE:80/P", "http://u@xN--jxagkqfkduily1i.eu:8080/",
     "http://127.0.0.1/", "http://127.000.0.1/", "http://1.2.3/", "http://256.1.1.1/", "http://0x7f.1/", "http://1/",
     "http://h/" + "a" * 300, "http://" + "a" * 64 + ".com/", "http://" + "a." * 130 + "com/", "http://" + "é" * 64 + ".com/",
     "http://h/" + "é" * 40, "http://h/?" + "k=v&" * 30,
